@@ -110,14 +110,31 @@ func c05(w *World) {
 		done := 0
 		for t := 0; t < nTasks; t++ {
 			t := t
+			// a task may send one message object again and again (as the repository's own high-load test
+			// does), changing only its identifier: what was handed over earlier must not change under it
+			reuse := w.W.Chance(1, 3)
+			var reHB *fixgen.Heartbeat
+			var reMD *fixgen.MarketDataRequest
 			simrt.GoHarness("sender", func() {
 				for i := 0; i < per; i++ {
 					id := fmt.Sprintf("p%d-t%d-i%d", phase, t, i)
 					var m messages.Message
 					if w.W.Chance(1, 2) {
-						m = fixgen.NewHeartbeat().SetTestReqID(id)
+						if reuse && reHB != nil {
+							m = reHB.SetTestReqID(id)
+							w.Probe("message_object_reused")
+						} else {
+							reHB = fixgen.NewHeartbeat().SetTestReqID(id)
+							m = reHB
+						}
 					} else {
-						m = fixgen.NewMarketDataRequest().SetMDReqID(id).SetSubscriptionRequestType("1").SetMarketDepth(1)
+						if reuse && reMD != nil {
+							m = reMD.SetMDReqID(id)
+							w.Probe("message_object_reused")
+						} else {
+							reMD = fixgen.NewMarketDataRequest().SetMDReqID(id).SetSubscriptionRequestType("1").SetMarketDepth(1)
+							m = reMD
+						}
 					}
 					r := &appSend{id: id, task: t, n: i, invoke: time.Now()}
 					r.err = s.Send(m)
